@@ -63,9 +63,13 @@ class Spec:
     def sizes(self, tier):
         # mostly small (cheap, shrinkable), occasionally a size from the generators' tables / beyond
         big = st.sampled_from([15, 20, 33, 50])
+        # "huge": beyond int8 / uint8 index ranges and beyond every generator table entry used by the tests
+        # (dtype narrowing, table look-ups and O(n^2) buffers only show there); rare because an episode costs seconds
+        huge = st.sampled_from([130, 260])
+        small = st.integers(2, 9)
         if tier == "quick":
-            return st.one_of(st.integers(2, 9), st.integers(2, 9), st.integers(2, 9), st.integers(2, 9), st.integers(2, 9), big)
-        return st.one_of(st.integers(2, 12), st.integers(2, 24), st.integers(2, 12), big, st.sampled_from([75, 100]))
+            return st.one_of(*([small] * 40 + [big] * 8 + [huge] * 2))
+        return st.one_of(*([st.integers(2, 12)] * 8 + [st.integers(2, 24)] * 4 + [big] * 4 + [st.sampled_from([75, 100])] * 3 + [huge]))
 
     def cfg(self, tier):
         return self.sizes(tier).map(lambda n: {"n": n})
@@ -576,6 +580,9 @@ def episode_cases(draw, tier, names, max_b=None, sources=None):
     B = draw(st.integers(1, max_b or (6 if tier == "quick" else 12)))
     srcs = sources or spec.sources
     src = draw(st.sampled_from(srcs))
+    if isinstance(cfg.get("n"), int) and cfg["n"] > 100:
+        # huge instances: generator-drawn only (a hand-built lattice of this size exceeds Hypothesis' data budget)
+        src, B = ("gen" if "gen" in srcs else src), min(B, 3)
     case = {"env": name, "cfg": cfg, "B": B, "src": src, "seed": draw(st.integers(0, 2 ** 31 - 1))}
     if src in ("lat", "flt"):
         case["lat"] = draw(spec.lattice(cfg, B, exact=(src == "lat")))
